@@ -63,7 +63,7 @@ def run(chk, which="C16"):
             ("mdiv", ("int", 9), ("mpow", ("int", 10), 46)), ("mdiv", ("int", 3), ("mpow", ("int", 10), 325))]
     cases = []
     for ci, (cname, cexpr, hdr) in enumerate(cexprs):
-        sel = (ratios + subn) if tier == "thorough" else rnd.sample(ratios, 9) + [subn[(2 * ci) % len(subn)], subn[(2 * ci + 1) % len(subn)]]
+        sel = (ratios + subn) if tier == "thorough" else rnd.sample(ratios, 12) + [subn[(2 * ci) % len(subn)], subn[(2 * ci + 1) % len(subn)]]
         for rt in sel:
             m = model.mag_eval(rt)
             if any(abs(v.numerator) > 20000 or v.denominator > 12 for v in m.values()):
